@@ -45,6 +45,7 @@ type Contract struct {
 	Inlines  map[string]bool // callee keys to inline in this function
 	Implements []string    // interface contracts this function must satisfy
 	Lets     []LetDef
+	CallAsserts map[string][]Clause // at_call <callee> assert <expr>: checked at every call of callee in this function, in the caller's scope
 	Counts   []CountDef // call-history ghosts: counts <ghost> when <cond over results>
 	File     string
 	Line     int
@@ -117,7 +118,7 @@ type Specs struct {
 var headerRe = regexp.MustCompile(`^func\s*(\(\s*(\w+)?\s*(\*?)\s*(\w+)\s*\))?\s*(\w+)\s*$`)
 
 var clauseKw = map[string]bool{"property": true, "opts": true, "requires": true, "ensures": true, "modifies": true,
-	"loop": true, "invariant": true, "inline": true, "implements": true, "counts": true, "records": true, "let": true, "params": true, "decreases": true}
+	"loop": true, "invariant": true, "inline": true, "implements": true, "counts": true, "records": true, "at_call": true, "let": true, "params": true, "decreases": true}
 var topKw = map[string]bool{"spec": true, "ghost": true, "lemma": true, "axiom": true, "func": true, "closure": true,
 	"interface": true, "extern": true, "directive": true, "fnvalue": true}
 
@@ -345,6 +346,23 @@ func loadContractFile(path, pkgPath string, resolveQual func(q string) string, s
 				return fail(l, "%v", err)
 			}
 			cur.Counts = append(cur.Counts, CountDef{Ghost: strings.TrimSpace(rest[:k]), Cond: e, Src: rest[k+6:]})
+		case "at_call":
+			if cur == nil {
+				return fail(l, "at_call outside a contract")
+			}
+			k := strings.Index(rest, " assert ")
+			if k < 0 {
+				return fail(l, "at_call <callee> assert <condition>")
+			}
+			cl, err := mkClause(l, rest[k+8:])
+			if err != nil {
+				return err
+			}
+			if cur.CallAsserts == nil {
+				cur.CallAsserts = map[string][]Clause{}
+			}
+			callee := strings.TrimSpace(rest[:k])
+			cur.CallAsserts[callee] = append(cur.CallAsserts[callee], cl)
 		case "records":
 			if cur == nil {
 				return fail(l, "records outside a contract")
